@@ -133,9 +133,11 @@ func loadKnown(verifDir string) KnownFile {
 func (r *Report) Finish(verifDir string, writeEvidence bool) int {
 	known := loadKnown(verifDir)
 	kn := map[string]KnownFinding{}
+	// (a finding is named by the function it is in: pointer or value receiver is the same function)
+	starless := func(s string) string { return strings.ReplaceAll(s, "(*", "(") }
 	for _, k := range known.Findings {
 		if k.Property == r.Prop {
-			kn[k.Rule+" "+k.Construct] = k
+			kn[starless(k.Rule+" "+k.Construct)] = k
 		}
 	}
 	// one obligation per (rule, construct): duplicates (several dataflow states) keep the worst verdict
@@ -173,7 +175,7 @@ func (r *Report) Finish(verifDir string, writeEvidence bool) int {
 	for i := range r.Obls {
 		o := &r.Obls[i]
 		if o.Verdict == Violated {
-			if k, ok := kn[o.Key()]; ok {
+			if k, ok := kn[starless(o.Key())]; ok {
 				o.Verdict = Known
 				fmt.Printf("KNOWN-FINDING: property=%s %s [%s %s]\n", r.Prop, k.What, o.Rule, o.Construct)
 			}
